@@ -533,3 +533,53 @@ pub fn run_blocklist(job: &Value, t: &mut Trace) -> usize {
 fn cue_tag(c: &Cuesheet) -> i64 {
     c.tracks().nth(1).map(|t| (t.offset / 588) as i64).unwrap_or(-3)
 }
+
+// ---------------------------------------------------------------------------------------------
+// growth: ChannelMask cases (ChannelMask.tla)
+pub fn run_chmask(job: &Value, t: &mut Trace) -> usize {
+    use flac_codec::metadata::{ChannelMask, Streaminfo, VorbisComment};
+    let chars = |s: &str| -> Vec<String> { s.chars().map(|c| c.to_string()).collect() };
+    let join = |v: &Value| -> String { v.as_array().unwrap().iter().map(|c| c.as_str().unwrap()).collect::<String>() };
+    let as_i = |m: Option<u32>| -> i64 { match m { None => -1, Some(v) if v > i32::MAX as u32 => -2, Some(v) => v as i64 } };
+    let mut n = 0;
+    let texts = job["texts"].as_array().unwrap();
+    let masks = job["masks"].as_array().unwrap();
+    for tx in texts {
+        n += 1;
+        let s = join(tx);
+        let r = catch(|| s.parse::<ChannelMask>().ok().map(u32::from));
+        t.emit(json!({"ev": "parse", "text": tx, "mask": match r { Ok(m) => as_i(m), Err(_) => -9 }}));
+    }
+    for m in masks {
+        n += 1;
+        let mv = m.as_u64().unwrap() as u32;
+        let mask = ChannelMask::from(mv);
+        let d = mask.to_string();
+        let ch: Vec<String> = mask.channels().map(|c| format!("{c:?}")).collect();
+        t.emit(json!({"ev": "mask", "mask": mv as i64, "display": chars(&d), "channels": ch, "reparsed": as_i(d.parse::<ChannelMask>().ok().map(u32::from))}));
+    }
+    // Metadata::channel_mask() on block lists: no comment, a comment without the field, a comment with each text
+    let si = |c: u8| Streaminfo { minimum_block_size: 16, maximum_block_size: 16, minimum_frame_size: None, maximum_frame_size: None,
+        sample_rate: 44100, channels: c.try_into().unwrap(), bits_per_sample: 16u32.try_into().unwrap(), total_samples: None, md5: None };
+    for c in 1u8..=8 {
+        let bl = BlockList::new(si(c));
+        t.emit(json!({"ev": "effective", "channels": c as i64, "has_field": false, "text": [], "mask": as_i(Some(u32::from(bl.channel_mask())))}));
+        let mut bl = BlockList::new(si(c));
+        bl.insert(VorbisComment { vendor_string: "v".into(), fields: vec!["TITLE=x".into()] });
+        t.emit(json!({"ev": "effective", "channels": c as i64, "has_field": false, "text": [], "mask": as_i(Some(u32::from(bl.channel_mask())))}));
+        for (i, tx) in texts.iter().enumerate() {
+            if (i + c as usize) % 8 != 0 && texts.len() > 4000 {
+                continue;
+            }
+            n += 1;
+            let mut bl = BlockList::new(si(c));
+            let mut vc = VorbisComment { vendor_string: "v".into(), fields: vec!["TITLE=x".into()] };
+            vc.insert(flac_codec::metadata::fields::CHANNEL_MASK, join(tx));
+            bl.insert(vc);
+            let r = catch(|| u32::from(bl.channel_mask()));
+            t.emit(json!({"ev": "effective", "channels": c as i64, "has_field": true, "text": tx, "mask": match r { Ok(m) => as_i(Some(m)), Err(_) => -9 }}));
+        }
+    }
+    t.emit(json!({"ev": "count", "texts": texts.len() as i64, "masks": masks.len() as i64}));
+    n
+}
